@@ -22,15 +22,15 @@ import (
 type nameCase struct {
 	Kind    string `json:"kind"` // "name"
 	Message string `json:"message"`
-	Default string `json:"default"` // ~ = empty
-	Name    string `json:"name"`    // ~ = empty
+	Default string `json:"default"` // the real strings (JSON-escaped)
+	Name    string `json:"name"`
 	Stream  bool   `json:"stream_interceptor"`
 	MsgSeed int64  `json:"msg_seed"`
 }
 
 func fieldTok(m protoreflect.Message, fd protoreflect.FieldDescriptor) string {
 	if fd.Kind() == protoreflect.StringKind && !fd.IsList() && !fd.IsMap() {
-		return fmt.Sprintf("%s:S:%s", fd.TextName(), tilde(safeTok(m.Get(fd).String())))
+		return fmt.Sprintf("%s:S:%s", fd.TextName(), escTok(m.Get(fd).String()))
 	}
 	// any other field: a hash of its value (deterministic marshalling of a one-field copy)
 	h := fnv.New32a()
@@ -83,12 +83,12 @@ func runNameCase(c nameCase) (string, string, proto.Message, proto.Message, erro
 	if err != nil {
 		return "", "", nil, nil, err
 	}
-	setName(req, unTilde(c.Name))
+	setName(req, c.Name)
 	before := proto.Clone(req)
 	in := msgTok(req)
 	var seen proto.Message
 	if c.Stream {
-		ic := namemw.IfAbsentStreamInterceptor(unTilde(c.Default))
+		ic := namemw.IfAbsentStreamInterceptor(c.Default)
 		err = ic(nil, &oneShotStream{req: req}, &grpc.StreamServerInfo{}, func(srv any, ss grpc.ServerStream) error {
 			m, _ := newMessage(protoreflect.FullName(c.Message))
 			if e := ss.RecvMsg(m); e != nil {
@@ -98,7 +98,7 @@ func runNameCase(c nameCase) (string, string, proto.Message, proto.Message, erro
 			return nil
 		})
 	} else {
-		ic := namemw.IfAbsentUnaryInterceptor(unTilde(c.Default))
+		ic := namemw.IfAbsentUnaryInterceptor(c.Default)
 		_, err = ic(context.Background(), req, &grpc.UnaryServerInfo{}, func(ctx context.Context, r any) (any, error) {
 			seen, _ = r.(proto.Message)
 			return nil, nil
@@ -117,8 +117,8 @@ func monitorName(mon *lib.Monitor, c nameCase, before, after proto.Message) {
 		return
 	}
 	want := proto.Clone(before)
-	if unTilde(c.Name) == "" {
-		setName(want, unTilde(c.Default))
+	if c.Name == "" {
+		setName(want, c.Default)
 	}
 	if !proto.Equal(want, after) {
 		class := "other-field-changed"
@@ -147,7 +147,7 @@ func randName(rng interface{ Intn(int) int }) string {
 }
 
 func runName(f lib.Flags, res *lib.Result, drv *lib.Driver) {
-	tie := res.Tie("default-name", "K1", "name.IfAbsentUnaryInterceptor and IfAbsentStreamInterceptor on every request message type of every routed service, plus every message in the compiled descriptors that has no `name` field or a non-string / repeated one (up to 40), x name in {empty, non-empty} x default in {empty, non-empty} x random other content; the message the handler sees, field by field (strings verbatim, other fields by a hash of their encoding), compared with the Lean replaceEmptyName; distinct = (message type, name empty?, default empty?, interceptor kind)")
+	tie := res.Tie("default-name", "K1", "name.IfAbsentUnaryInterceptor and IfAbsentStreamInterceptor on every request message type of every routed service, plus every message in the compiled descriptors that has no `name` field or a non-string / repeated one (up to 40), x name in {empty, ordinary, random, whitespace-only (space, tab, newline, mixed, NBSP, EM SPACE), leading/trailing blanks, case variants, containing / or NUL, non-ASCII, 5000 characters} x default in {empty, non-empty, blank} x random other content; the message the handler sees, field by field (strings through an injective escaping, other fields by a hash of their encoding), compared with the Lean replaceEmptyName; distinct = (message type, name empty?, default empty?, interceptor kind)")
 	mon := res.Monitor("default-name", "the handler sees the request with name = default iff it was empty, proto.Equal otherwise")
 	rng := lib.NewRand(f.Seed + 3)
 	types := map[string]bool{}
@@ -183,9 +183,18 @@ func runName(f lib.Flags, res *lib.Result, drv *lib.Driver) {
 	reps := f.N(1, 6)
 	var cases []nameCase
 	var lines, answers []string
-	for _, t := range names {
-		for _, nm := range []string{"~", "dev1", randName(rng)} {
-			for _, d := range []string{"~", "thisnode"} {
+	for ti, t := range names {
+		nms := []string{"", "dev1", randName(rng)}
+		// unusual non-empty names: each message type gets the blank ones and a rotating share of the rest
+		nms = append(nms, " ", "\t", "\n", " \t\r\n ", "\u00a0", "\u2003")
+		for k := 0; k < 3; k++ {
+			nms = append(nms, unusualNames[(ti*3+k)%len(unusualNames)].real)
+		}
+		for _, nm := range nms {
+			for _, d := range []string{"", "thisnode", " "} {
+				if d == " " && nm != "" && nm != " " {
+					continue
+				}
 				for _, st := range []bool{false, true} {
 					for r := 0; r < reps; r++ {
 						c := nameCase{"name", t, d, nm, st, rng.Int63() >> 12}
@@ -205,7 +214,7 @@ func runName(f lib.Flags, res *lib.Result, drv *lib.Driver) {
 						mon.Eval(fmt.Sprintf("%s/%s/%s/%v", t, nm, d, st), true, nil)
 						cases = append(cases, c)
 						answers = append(answers, out)
-						lines = append(lines, fmt.Sprintf("name %s %s", d, in))
+						lines = append(lines, fmt.Sprintf("name %s %s", escTok(d), in))
 					}
 				}
 			}
@@ -218,9 +227,14 @@ func runName(f lib.Flags, res *lib.Result, drv *lib.Driver) {
 	}
 	for i, c := range cases {
 		tie.Record(fmt.Sprintf("%s/%s/%s/%v", c.Message, c.Name, c.Default, c.Stream), true, c, ans[i], answers[i])
-		if c.Name == "~" {
+		switch {
+		case c.Name == "":
 			tie.Count("empty-name")
-		} else {
+		case strings.TrimSpace(c.Name) == "":
+			tie.Count("blank-name")
+		case c.Name != strings.TrimSpace(c.Name) || len(c.Name) > 100 || strings.ContainsAny(c.Name, "/\x00") || c.Name != strings.ToLower(c.Name):
+			tie.Count("unusual-name")
+		default:
 			tie.Count("given-name")
 		}
 	}
